@@ -15,6 +15,8 @@ package harness
 
 import (
 	"bufio"
+	"bytes"
+	"crypto/tls"
 	"context"
 	"errors"
 	"io"
@@ -561,4 +563,47 @@ func TestScenarioObserveCloseBeforeRegistration(t *testing.T) {
 		}
 	}
 	t.Logf("OBSERVATION close-before-registration: %d of %d connections accepted just before Server.Close were not closed by it (their handler had not registered them yet)", survivors, tries)
+}
+
+// Server.Close must end a connection that is still inside the implicit-TLS
+// handshake (the peer has connected to a TLS listener and sends nothing).
+func TestScenarioCloseDuringImplicitTLSHandshake(t *testing.T) {
+	s := smtp.NewServer(lifeBackend{})
+	s.Domain = "verif"
+	s.ErrorLog = log.New(io.Discard, "", 0)
+	l := newLifeListener()
+	ret := make(chan error, 1)
+	go func() { ret <- s.Serve(l) }()
+	<-l.called
+	c1, c2 := net.Pipe()
+	defer c1.Close()
+	sc := &closeNotifyConn{Conn: c2, closed: make(chan struct{}), written: make(chan struct{})}
+	l.next <- lifeItem{conn: tls.Server(sc, serverTLSConfig())}
+	// let the handler goroutine reach the handshake (it blocks reading the ClientHello)
+	<-l.called
+	time.Sleep(100 * time.Millisecond)
+	if err := s.Close(); err != nil {
+		t.Fatalf("Close: %v", err)
+	}
+	select {
+	case <-ret:
+	case <-time.After(scWatchdog):
+		t.Fatalf("Serve did not return after Close")
+	}
+	select {
+	case <-sc.closed:
+	case <-time.After(scWatchdog):
+		t.Fatalf("Server.Close did not end the connection that was stalled in the implicit-TLS handshake")
+	}
+	deadline := time.Now().Add(scWatchdog)
+	for smtpHandlerAlive() {
+		if time.Now().After(deadline) {
+			t.Fatalf("a connection goroutine outlived Server.Close (stalled implicit-TLS handshake)")
+		}
+		time.Sleep(time.Millisecond)
+	}
+}
+
+func smtpHandlerAlive() bool {
+	return bytes.Contains(allStacks(), []byte("go-smtp.(*Server).handleConn"))
 }
